@@ -6,7 +6,7 @@
 From Coq Require Import ZArith QArith Qround List Bool.
 Require Import SC3.model.Osc SC3.proofs.C06_roundtrip.
 Require Import SC3.model.KProg SC3.model.KNrt SC3.model.KRt SC3.model.KScore.
-Require Import SC3.proofs.C05_frame SC3.proofs.C07_stamp SC3.proofs.C07_runs SC3.proofs.C07_props SC3.proofs.C07_raw.
+Require Import SC3.proofs.C05_frame SC3.proofs.C07_stamp SC3.proofs.C07_runs SC3.proofs.C07_props SC3.proofs.C07_raw SC3.proofs.C07_rawdom.
 Import ListNotations.
 Open Scope Q_scope.
 
@@ -244,7 +244,23 @@ Example closed_inside_example :
   map (fun s => Qred (s_time s)) (n_score (nrt_run_closed_inside repaired p 10 4)) = [0; 1#10; 2; 6].
 Proof. vm_compute. split; reflexivity. Qed.
 
+(* ---- the binary form EXISTS ----------------------------------------------------------------------------
+   raw_is_concat_of_prefixed_encodings has the hypothesis "the encoder accepted every entry".  With C06's
+   acceptance theorem (every tree of the documented domain is encoded; its size is the predicted one) that
+   hypothesis is discharged for every score inside the documented domain, a DECIDABLE predicate on the model's
+   score: timetags in 64 bits, message arguments int32, addresses beginning with '/', nested bundles not before
+   their parents, every nested list below 2^31 bytes. *)
+Theorem raw_form_exists_in_domain : forall nc sc, score_in_domain sc = true ->
+  exists raw, score_raw_osc nc sc = Ok raw.
+Proof. exact raw_exists. Qed.
+Example c07_domain_example :
+  let p := mkProg [] [[SendBundle (Some (1#2)) [EMsg 3; EBundle (Some (3#4)) [EMsg 4]]; Yield (1#4); Send None 5]]
+                  [Play 0 CSystem; Send (Some (3#4)) 9] 0 in
+  score_in_domain (n_score (nrt_run repaired p 10)) = true.
+Proof. vm_compute. reflexivity. Qed.
+
 Print Assumptions raw_is_concat_of_prefixed_encodings.
+Print Assumptions raw_form_exists_in_domain.
 Print Assumptions score_times_exact_timetags.
 Print Assumptions message_nested_bundle_stamp.
 Print Assumptions score_ends_with_tail_marker_closed_inside.
